@@ -188,7 +188,6 @@ NOT_DECIDED = {
         'that the parser maps `a < b`, `a between b and c`, `a in [b..c]` to these closures and that operands are the values of the operand expressions (closure wiring, R4)',
         'context = context with equal key sets that contain both an unequal and an incomparable entry: the result (false or null) depends on key order; only "true iff deeply equal" and "different key sets -> false" are decided for context pairs',
         'times and date-times: equality / between go through chrono instants (uninterpreted here, assumed symmetric; see unit timeline)',
-        'unary comparison tests `in (< x)` etc. (eval_in_unary_*) and list membership (eval_in_list) are not yet under contract',
     ],
     'C01': ['only the operator value tables of and/or/=/!=/</<=/>/>=/between/in-range are decided here; see units iterations and arith'],
 }
